@@ -91,3 +91,27 @@ Proof.
            (fst X) (snd X) (fst Y) (snd Y) (fst X') (snd X') (fst Y') (snd Y') (fst r) (snd r)); auto.
   intros u v Bu Bv. exact (proj2 (Hr u v Bu Bv)).
 Qed.
+
+(* the same against the ARRAYS returned by frechet_op for X, Y (its sorted bounds): the product of the wider operands contains them *)
+Theorem product_isotone_arrays steps plo phi (X Y X' Y' r : list R * list R) : (0 < steps)%nat ->
+  WF steps X -> WF steps Y -> WF steps X' -> WF steps Y' ->
+  (forall j, (j < steps)%nat -> 0 <= nth j (fst X) 0) -> (forall j, (j < steps)%nat -> 0 <= nth j (fst Y) 0) ->
+  ple (fst X') (fst X) -> ple (snd X) (snd X') -> ple (fst Y') (fst Y) -> ple (snd Y) (snd Y') ->
+  pmul RN steps plo phi DF X' Y' = Ok r ->
+  ple (fst r) (fst (frechet_op RN Rmult (fst X) (snd X) (fst Y) (snd Y))) /\ ple (snd (frechet_op RN Rmult (fst X) (snd X) (fst Y) (snd Y))) (snd r).
+Proof.
+  intros Hs WX WY WX' WY' PX PY w1 w2 w3 w4 E.
+  pose proof (product_isotone_into_any_route steps plo phi X Y X' Y' r Hs WX WY WX' WY' PX PY w1 w2 w3 w4 E) as H.
+  assert (Wr : WF steps r).
+  { destruct WX' as [a1 a2 a3 a4 a5]. destruct WY' as [b1 b2 b3 b4 b5].
+    assert (Bu : bounds (fst X') (snd X') (fst X')) by (apply selection_bounds; auto; try lia; intros j Hj; split; [lra|apply ple_nth; auto]).
+    assert (Bv : bounds (fst Y') (snd Y') (fst Y')) by (apply selection_bounds; auto; try lia; intros j Hj; split; [lra|apply ple_nth; auto]).
+    apply (mul_sound steps plo phi Hs X' Y' (fst X') (fst Y') r); [split; [constructor|]; assumption|split; [constructor|]; assumption|exact E]. }
+  destruct Wr as [r1 r2 r3 r4 r5]. destruct WX as [x1 x2 x3 x4 x5].
+  unfold frechet_op. cbn [fst snd T RN]. rewrite x1. change (nsort RN) with Rsort.
+  split; apply nth_ple; rewrite ?Rsort_length, ?map_length, ?seq_length; try lia; intros i Hi.
+  - rewrite <- (Rsort_id (fst r) r3) at 1. apply sort_pointwise_le; rewrite ?map_length, ?seq_length; try lia.
+    intros j Hj. rewrite nth_map_seq by lia. apply (H j). lia.
+  - rewrite <- (Rsort_id (snd r) r4). apply sort_pointwise_le; rewrite ?map_length, ?seq_length; try lia.
+    intros j Hj. rewrite nth_map_seq by lia. apply (H j). lia.
+Qed.
